@@ -30,6 +30,7 @@ const (
 	opCloseProvider   // close the provider
 	opCancelShared    // cancel the context the shared scope was created with
 	opResolveRoot     // resolve registration 0 on the provider itself
+	opCloseChild      // close the child of the shared scope
 	numOps
 )
 
@@ -50,7 +51,7 @@ func H_Conc() {
 	w.Order = [kit.NS]int{0, 1, 2, 3}
 	// registration 0 (disposable S0) takes registrations 1 and 2 as parameters, so
 	// that a user callback runs between the resolution of its two arguments
-	v0 := []int{2, 22}[vrt.Pick("var0", 0, 1)] // S0(S1, S2) or S0(Scope, S1)
+	v0 := []int{2, 22, 30}[vrt.Pick("var0", 0, 2)] // S0(S1, S2), S0(Scope, S1) or S0(In{S1; S2})
 	w.Regs[0] = kit.Reg{Present: true, Life: l0, Form: kit.IdPlain, Variant: v0}
 	w.Regs[1] = kit.Reg{Present: true, Life: l1, Form: kit.IdPlain, Variant: 0}
 	w.Regs[2] = kit.Reg{Present: true, Life: l2, Form: kit.IdPlain, Variant: 0}
@@ -157,6 +158,8 @@ func H_Conc() {
 					r.scope, r.err = shared.CreateScope(nil)
 				case opCreateTop:
 					r.scope, r.err = p.CreateScope(nil)
+				case opCloseChild:
+					r.err = child.Close()
 				case opCloseShared:
 					r.err = shared.Close()
 				case opCloseProvider:
@@ -181,7 +184,7 @@ func H_Conc() {
 			vrt.Assert(!r.panicked, "C09.panic", "operation", r.op, "panicked:", r.pv)
 			closing := false
 			for _, o := range prog[1-g] {
-				if o == opCloseShared || o == opCloseProvider || o == opCancelShared {
+				if o == opCloseShared || o == opCloseProvider || o == opCancelShared || o == opCloseChild {
 					closing = true
 				}
 			}
@@ -192,7 +195,7 @@ func H_Conc() {
 				continue
 			}
 			switch r.op {
-			case opCloseShared, opCloseProvider:
+			case opCloseShared, opCloseProvider, opCloseChild:
 				vrt.Assert(r.err == nil, "C09.close_error", "Close returned", r.err)
 			case opCancelShared:
 			case opCreateChild, opCreateTop:
@@ -289,6 +292,7 @@ func H_Conc() {
 					cur, err := sc.Get(kit.TypeS[a.Slot])
 					if err == nil {
 						vrt.Assert(kit.InfoOf(cur) == a || w.Regs[in.Slot].Life != kit.LScoped && false, "C09.wrong_wiring", "instance of slot", in.Slot, "resolved in one scope holds the scoped instance of another scope (slot", a.Slot, ")")
+						vrt.Assert(kit.InfoOf(cur) == a, "C02.foreign_scoped_instance", "instance of slot", in.Slot, "resolved in one scope holds a scoped instance (slot", a.Slot, ") that is not the one its own scope hands out")
 					}
 				}
 			}
